@@ -209,10 +209,20 @@ def list_lemmas(terms):
                     out.append(z3.Implies(z3.And(k >= 0, k < length(a)), e == nth(a, k)))
                     out.append(z3.Implies(k >= length(a), e == nth(b, k - length(a))))
                     out.append(length(a) >= 0)
+            elif n == 'assoc_set':
+                l0, k0, v0 = e.arg(0), e.arg(1), e.arg(2)
+                if z3.is_app(l0) and l0.decl().name() == 'app' and z3.is_app(l0.arg(1)) and l0.arg(1).decl().name() == 'cons':
+                    a, last = l0.arg(0), l0.arg(1)
+                    # updating the entry that was just appended under a new key (induction on a)
+                    out.append(z3.Implies(z3.And(VL.is_nil(VL.tl(last)), V.fst(VL.hd(last)) == k0, lookup(a, k0) == V.Missing),
+                                          e == app(a, VL.cons(V.Pair(k0, v0), VL.nil))))
+                out.append(lookup(e, k0) == v0)
             elif n == 'lookup':
                 l, k = e.arg(0), e.arg(1)
                 if z3.is_app(l) and l.decl().name() == 'assoc_set':
                     out.append(z3.If(l.arg(1) == k, e == l.arg(2), e == lookup(l.arg(0), k)))
+                if z3.is_app(l) and l.decl().name() == 'app':
+                    out.append(e == z3.If(lookup(l.arg(0), k) != V.Missing, lookup(l.arg(0), k), lookup(l.arg(1), k)))
             elif n == 'take':
                 l0 = e.arg(0)
                 if z3.is_app(l0) and l0.decl().name() == 'take':
